@@ -9,6 +9,8 @@ RULES = {
                'a user callable, a downstream update or an emission: every such handler path ends in raise',
     'STATE-AFTER-CALL': 'in a node with user callables no write to node state precedes a user-callable invocation on any path of '
                         'update(), so a raising function leaves the node as it was',
+    'NO-SWALLOWING-GATHER': 'no gather(..., return_exceptions=True) / multi(quiet_exceptions=...) on the delivery chain: a '
+                            'consumer\'s exception must reach the emitter',
     'STATE-FROM-RESULT': 'accumulate.state is assigned only from the value its function returned (or the first element)',
 }
 FAIL_SOURCES = ('UCALL', 'EM', 'CALL', 'SELFCALL', 'SUPERCALL', 'LEAVE')
@@ -98,3 +100,22 @@ def check_state_after_call(ctx, R):
     R.ob('STATE-FROM-RESULT', ctx.construct(fn), 'state', bad is None and n > 0,
          'accumulate.state is assigned a value that is neither the function\'s result nor the first element',
          ctx.where(fn, fn.node.lineno), fmt_path(bad) if bad else None, n)
+
+
+def check_no_swallowing_gather(ctx, R):
+    M = ctx.model
+    bad = []
+    n = 0
+    for fn in M.all_funcs():
+        if fn.module.name not in ('streamz.core', 'streamz.sources', 'streamz.sinks', 'streamz.dask'):
+            continue
+        for x in own_nodes(fn.node):
+            if isinstance(x, ast.Call) and src(x.func).split('.')[-1] in ('gather', 'multi', 'multi_future', 'wait'):
+                n += 1
+                for k in x.keywords:
+                    if k.arg in ('return_exceptions', 'quiet_exceptions') and not (
+                            isinstance(k.value, ast.Constant) and k.value.value in (False, None, ())):
+                        bad.append((fn, x))
+    R.ob('NO-SWALLOWING-GATHER', 'streamz', 'gather-calls', not bad,
+         'exceptions of awaited consumers are collected instead of raised: %s' % ', '.join(
+             '%s:%d' % (f.qual, x.lineno) for f, x in bad), ctx.where(bad[0][0], bad[0][1].lineno) if bad else None, None, n)
